@@ -155,7 +155,7 @@ func checkParsed(root ast.Vertex) string {
 func TestParsedPrograms(t *testing.T) {
 	harness.Check(t, "parsed-programs", 20000, 800000, func(rt *rapid.T) {
 		v := rapid.SampledFrom(px.KeyVersions).Draw(rt, "version")
-		c := progs.Draw(rt, v, progs.Options(v), 1, 5)
+		c := progs.Draw(rt, v, progs.StructuralOptions(v), 1, 5)
 		lay := c.G.Render(c.Root, progs.Policy(rt, phpgen.PolicySpace, nil))
 		r := px.Parse(lay.Src, v, true)
 		harness.Eval()
@@ -189,7 +189,7 @@ func TestLargePrograms(t *testing.T) {
 			src = inputs.ManyStatements(rt)
 			harness.Class("src=many-statements")
 		} else {
-			o := progs.Options(v)
+			o := progs.StructuralOptions(v)
 			o.NoHalt = true
 			c := progs.Draw(rt, v, o, 120, 200)
 			src = c.G.Render(c.Root, progs.Policy(rt, phpgen.PolicySpace, nil)).Src
